@@ -79,6 +79,16 @@ CLAIMED = {
               "first call also via the constructor) and every transition (registry before, call, outcome, registry after, "
               "get_metric at every slot) must be a step of that state machine."),
         ref="4 C16, 3.6", technique="TLA+ state machine (Metrics) model-checked with TLC + TLC validation of every transition of the implementation's registry graph"),
+    "C06": dict(
+        text=("A TLA+ state machine of chunking (every composition of the axis, boundary chunks merged into the end chunks, "
+              "overlap of depth = boundary width, block tasks in any order, nothing computed before Compute) is exhausted by "
+              "TLC for depths (1,0),(0,1),(1,1) and refuted, as expected, for depth 2 over a shorter neighbour chunk; real "
+              "calls on dask-backed data (all operators incl. metric-aware ones, user ufuncs with and without map_overlap, "
+              "face-connected grids chunked over face and extra dims, scalar and vector) over every composition of the "
+              "operated dimension are validated by the TLA+ trace specification: zero graph executions while building, a "
+              "dask result, values/dims/coords equal to the in-memory call and, for the stencil operators, to the geometric "
+              "definition; chunked inner/outer shifts must raise NotImplementedError."),
+        ref="4 C06, 3.4", technique="TLA+ state machine (DaskChunks) model-checked with TLC + TLC trace validation of real dask executions"),
 }
 
 PENDING_REASON = "check not built yet in this session (planned; see DESIGN.md section 9 build order)"
